@@ -360,7 +360,7 @@ def convectionTvdRHSSpherical1D(u: FaceVariable, phi: CellVariable,
     uw_min = ux_min[0:Nx]
     uw_max = ux_max[0:Nx]
     # calculate the TVD correction term
-    RHS[1:Nx+1] = -(1.0/(1/3**(rf[1:Nx+1]**3-rf[0:Nx]**3)))*(rf[1:Nx+1]**2*(ue_max*psi_p[1:Nx+1]+ue_min*psi_m[1:Nx+1]) -
+    RHS[1:Nx+1] = -(1.0/(1/3*(rf[1:Nx+1]**3-rf[0:Nx]**3)))*(rf[1:Nx+1]**2*(ue_max*psi_p[1:Nx+1]+ue_min*psi_m[1:Nx+1]) -
                                   rf[0:Nx]**2*(uw_max*psi_p[0:Nx]+uw_min*psi_m[0:Nx]))
     return RHS
 
